@@ -473,12 +473,15 @@ func (b *Bezier) Polygon() (*Polygon, error) {
 	}
 	// render the splines to a polygon
 	p := NewPolygon()
-	n = len(splines)
-	for i, s := range splines {
-		if s.px.n == 0 && s.py.n == 0 {
-			// This is a point, not a curve. Skip it.
-			continue
+	// A spline can be a point, not a curve. Skip those.
+	var curves []*BezierSpline
+	for _, s := range splines {
+		if s.px.n != 0 || s.py.n != 0 {
+			curves = append(curves, s)
 		}
+	}
+	n = len(curves)
+	for i, s := range curves {
 		// Add the spline vertices
 		s.Sample(p, 0, 1, s.f0(0), s.f0(1), 0)
 		if i != n-1 {
